@@ -104,3 +104,16 @@ CHECKS["C15"] = {
     "assumptions": ["Go's SetPanicOnFault turns SIGSEGV/SIGBUS inside the assembly kernels into recoverable panics (confirmed)", "float64 evaluation is the numeric anchor"],
     "min": {"any": {"calls_native": 10000, "calls_avx": 10000, "calls_sse": 10000}},
 }
+
+CHECKS["C16"] = {
+    "pkg": "./c16", "run": "^TestC16$", "level": "exploration",
+    "technique": "runtime monitor: structural check of every placement proposed by the real DatasetManager.Create/Allocator over a scripted raft.Group, plus fixed-threshold independence and spread statistics",
+    "level_text": "Monitor on the real Create path (allocator + cluster connection) with a scripted raft group that captures the proposal bytes: for every N in 1..16 x R in 1..8 x P in {1,2,3,8,64} (all 640 configurations, 30 creates each quick / 400 thorough) each partition must get exactly min(R,N) distinct member nodes; independence is decided with fixed thresholds (an all-identical placement where its probability is <= 1e-12; pair-coincidence rate and per-node load inside Hoeffding bands with delta = 1e-10).",
+    "level_note": "The configurations are enumerated exhaustively within the stated ranges; random seeds of the shuffle are sampled (global math/rand seeded from VERIF_SEED); statistical tests have a per-run false-alarm probability below 1e-7.",
+    "shards": {"quick": 8, "thorough": 16},
+    "timeout": {"quick": 300, "thorough": 1800},
+    "exhaustive": "N 1..16 x R 1..8 x P in {1,2,3,8,64}",
+    "rule": "case = configuration (N,R,P); T creates per configuration, every partition of every create checked structurally; distinct = (N,R,P); all non-trivial",
+    "assumptions": ["placement is what the create-dataset proposal carries (bytes captured at raft.Group.Propose)"],
+    "min": {"any": {"creates_checked": 10000, "independence_tests": 300}},
+}
